@@ -162,14 +162,21 @@ def _reassign_annulus(self, p, c2, ri2, ro2):
     self.inner_radius = ri2
     self.outer_radius = ro2
     fresh = self.__class__(self.center, self.inner_radius, self.outer_radius, self.meta, self.visual)
-    return (before, self.contains(p), fresh.contains(p))
+    return (before, self.contains(p), fresh.contains(p), self.to_mask(), fresh.to_mask(), self.bounding_box)
 
 
-@contract(CIRCLE_ANN + '.contains', props=['C08', 'C13'])
+@contract(CIRCLE_ANN + '.contains', props=['C08', 'C13', 'C02', 'C01'])
 class annulus_follows_assignment:
     def setup(B):
         return dict(self=circle_annulus(B, 'r', 'bool'), p=pix(B, 'p'), c2=pix(B, 'c2'), ri2=B.real('ri2'), ro2=B.real('ro2'))
     pre = lambda self, ri2, ro2: circle_annulus_ok(self) and 0 < ri2 and ri2 < ro2
     call = lambda self, p, c2, ri2, ro2: _reassign_annulus(self, p, c2, ri2, ro2)
     modifies = ('r',)
-    post = {'membership_is_function_of_current_parameters': lambda result: bool(result[1]) == bool(result[2])}
+    forall = {'i': 'int', 'j': 'int'}
+    post = {'membership_is_function_of_current_parameters': lambda result: bool(result[1]) == bool(result[2]),
+            # the mask made after the assignment is the mask of the annulus as it is now: same box as a freshly built one (and as
+            # bounding_box reports), same values
+            'mask_is_function_of_current_parameters': lambda result, i, j:
+                result[3].bbox == result[4].bbox and result[3].bbox == result[5] and (
+                    (not (0 <= i and i < result[4].bbox.ixmax - result[4].bbox.ixmin and 0 <= j and j < result[4].bbox.iymax - result[4].bbox.iymin))
+                    or result[3].data[j, i] == result[4].data[j, i])}
